@@ -57,6 +57,8 @@ class InitMethod(MethodDescriptor):
                         instance_attr_spec = instance_metadata.attrs[attr]
                         if instance_attr_spec.owner is not parent:
                             continue
+                        if not instance_attr_spec.init:
+                            continue  # Not accepted by the parent constructor.
                         if attr in kwargs:
                             parent_kwargs[attr] = kwargs.pop(attr)
                         else:
